@@ -22,7 +22,7 @@ def _load_registry():
 
 
 _B = int(os.environ.get("VERIF_ITEM_BUDGET", "0") or 0)
-ITEM_BUDGET_S = {"quick": _B or 480, "thorough": _B or 1200}    # wall budget of one exploration task (a shard counts separately)
+ITEM_BUDGET_S = {"quick": _B or 900, "thorough": _B or 1800}    # wall budget of one exploration task (a shard counts separately)
 SPLIT_AFTER = 10      # paths an item explores before its open subtrees are handed to other workers
 MAX_SHARDS = 12
 
@@ -65,7 +65,10 @@ def _worker(task):
         if item is None:
             raise RuntimeError("item %s not found in %s" % (item_name, modname))
         prog = Program(repo, VERIF)
-        tmo = item.timeout_ms or timeout_ms
+        # per-VC solver budget: THREE times the nominal value.  z3's timeout is wall-clock; with the machine shared by
+        # several checks (load 2.5x the core count) VCs that take ~25 s alone ran into the nominal 60 s and the check came
+        # back UNDECIDED on the unchanged tree.  Valid VCs cost what they cost; only hopeless ones wait longer.
+        tmo = 3 * (item.timeout_ms or timeout_ms)
         if isinstance(item, Lemma):
             out["kind"] = "lemma"
             out["expect_sat"] = item.expect_sat
